@@ -132,6 +132,13 @@ theorem refLoop_lengths (k : Nat) (r : Ref Θ O G V T P) :
     simp only [refLoop, refStep, List.length_append, List.length_cons, List.length_nil, h1, h2, h3]
     omega
 
+theorem refLoop_init_lengths (k : Nat) (θ0 : Θ) (opt0 : O) (g0 : G) :
+    (refLoop pr k (refInit θ0 opt0 g0 : Ref Θ O G V T P)).lossH.length = k ∧
+    (refLoop pr k (refInit θ0 opt0 g0 : Ref Θ O G V T P)).termH.length = k ∧
+    (refLoop pr k (refInit θ0 opt0 g0 : Ref Θ O G V T P)).trackH.length = k := by
+  have := refLoop_lengths pr k (refInit θ0 opt0 g0 : Ref Θ O G V T P)
+  simpa [refInit] using this
+
 /-- The parameters / optimizer state / generators of the reference loop do not depend on the
     histories accumulated so far, and the histories only grow at the end. -/
 theorem refLoop_prefix (k : Nat) (r : Ref Θ O G V T P) :
@@ -145,6 +152,24 @@ theorem refLoop_prefix (k : Nat) (r : Ref Θ O G V T P) :
     simp only [refLoop] at ih ⊢
     rw [ih]
     simp [refStep, List.append_assoc]
+
+/-- The histories of a shorter reference run are prefixes of those of a longer one. -/
+theorem refLoop_take (k n : Nat) (hk : k ≤ n) (θ0 : Θ) (opt0 : O) (g0 : G) :
+    let a := refLoop pr k (refInit θ0 opt0 g0 : Ref Θ O G V T P)
+    let f := refLoop pr n (refInit θ0 opt0 g0 : Ref Θ O G V T P)
+    f.lossH.take k = a.lossH ∧ f.termH.take k = a.termH ∧ f.trackH.take k = a.trackH := by
+  intro a f
+  obtain ⟨l1, l2, l3⟩ := refLoop_init_lengths pr k θ0 opt0 g0 (V := V) (T := T) (P := P)
+  have e : f = refLoop pr (n - k) a := by
+    show refLoop pr n _ = _
+    have : n = k + (n - k) := by omega
+    rw [this, refLoop_add]; congr 1; omega
+  have p := refLoop_prefix pr (n - k) a
+  rw [e, p]
+  refine ⟨?_, ?_, ?_⟩
+  · show (a.lossH ++ _).take k = _; rw [List.take_left' l1]
+  · show (a.termH ++ _).take k = _; rw [List.take_left' l2]
+  · show (a.trackH ++ _).take k = _; rw [List.take_left' l3]
 
 /-- the parameters at the start of iteration `j` of the reference loop -/
 def θseq (θ0 : Θ) (opt0 : O) (g0 : G) (j : Nat) : Θ :=
